@@ -94,6 +94,10 @@ int main(int argc, char **argv)
                     }
                     std::cout << "TRUE " << i << " :"; pbits(std::cout, truec); pbits(std::cout, len); std::cout << "\n";
                 }
+                // threshold factor < 0: "resume at the incumbent": the threshold becomes the best stored cost, the solutions
+                // are cleared and the planner is resumed (what tests/geometric/2d/2dcircles_optimize.cpp does between phases)
+                if (thrf < 0 && pdef->hasExactSolution() && !sols.empty() && sols[0].opt_)
+                { obj->setCostThreshold(sols[0].cost_); pdef->clearSolutionPaths(); }
             }
             std::cout << "END" << std::endl;
             w.space->freeState(s0); w.space->freeState(g0);
